@@ -320,6 +320,7 @@ static void top_call(const std::vector<std::string> &op) {
 static std::vector<io_event_t> g_extra_events;
 static bool g_fslog = false;
 static long g_fscrash = 0;      // crash (exit) before the k-th file-system call from now
+static long g_fsfail = 0;       // the k-th file-system call from now fails (ENOSPC) instead of being performed / succeeding
 
 
 static bool do_op(const std::vector<std::string> &op) {
@@ -448,6 +449,7 @@ static bool do_op(const std::vector<std::string> &op) {
   }
   if (o == "fslog") { g_fslog = atoi(op[1].c_str()) != 0; return false; }
   if (o == "fscrash") { g_fscrash = atol(op[1].c_str()); return false; }
+  if (o == "fsfail") { g_fsfail = atol(op[1].c_str()); return false; }
   if (o == "fault") { verif_fault_countdown = atol(op[1].c_str()); return false; }
   if (o == "icount") { snprintf(b, sizeof b, "\"e\":\"ICount\",\"n\":%ld", verif_insn_count); emit(b); return false; }
   if (o == "izero") { verif_insn_count = 0; return false; }
@@ -510,9 +512,13 @@ static bool do_op(const std::vector<std::string> &op) {
 // ------------------------------------------------------------------------------------------
 // file-system call boundaries (C16 crash points, C15 path log)
 static std::map<FILE *, std::string> g_fpath;
-static void fs_event(const char *fn, const std::string &p1, const std::string &p2 = "") {
+// returns true if this call is the one chosen to fail
+static bool fs_event(const char *fn, const std::string &p1, const std::string &p2 = "") {
   if (g_fscrash > 0 && --g_fscrash == 0) { emit(std::string("\"e\":\"Crash\",\"before\":") + jstr(fn)); _exit(0); }
-  if (g_fslog) emit(std::string("\"e\":\"Fs\",\"fn\":") + jstr(fn) + ",\"path\":" + jstr(p1) + ",\"path2\":" + jstr(p2));
+  bool fail = g_fsfail > 0 && --g_fsfail == 0;
+  if (g_fslog) emit(std::string("\"e\":\"Fs\",\"fn\":") + jstr(fn) + ",\"path\":" + jstr(p1) + ",\"path2\":" + jstr(p2) + ",\"failed\":" + (fail ? "true" : "false"));
+  if (fail) errno = ENOSPC;
+  return fail;
 }
 
 // ------------------------------------------------------------------------------------------
@@ -520,17 +526,20 @@ static void fs_event(const char *fn, const std::string &p1, const std::string &p
 extern "C" {
 
 FILE *__wrap_fopen(const char *path, const char *mode) {
-  if (g_fslog || g_fscrash) fs_event("fopen", path ? path : "", mode ? mode : "");
+  if ((g_fslog || g_fscrash || g_fsfail) && fs_event("fopen", path ? path : "", mode ? mode : "")) return NULL;
   FILE *f = __real_fopen(path, mode);
-  if (f && (g_fslog || g_fscrash)) g_fpath[f] = path;
+  if (f && (g_fslog || g_fscrash || g_fsfail)) g_fpath[f] = path;
   return f;
 }
 int __wrap_fclose(FILE *f) {
-  if ((g_fslog || g_fscrash) && g_fpath.count(f)) { fs_event("fclose", g_fpath[f]); g_fpath.erase(f); }
-  return __real_fclose(f);
+  bool fail = false;
+  if ((g_fslog || g_fscrash || g_fsfail) && g_fpath.count(f)) { fail = fs_event("fclose", g_fpath[f]); g_fpath.erase(f); }
+  int r = __real_fclose(f);
+  if (fail) { errno = ENOSPC; return EOF; }      // the final flush could not be written
+  return r;
 }
-int __wrap_rename(const char *a, const char *b) { if (g_fslog || g_fscrash) fs_event("rename", a, b); return __real_rename(a, b); }
-int __wrap_unlink(const char *a) { if (g_fslog || g_fscrash) fs_event("unlink", a); return __real_unlink(a); }
+int __wrap_rename(const char *a, const char *b) { if ((g_fslog || g_fscrash || g_fsfail) && fs_event("rename", a, b)) return -1; return __real_rename(a, b); }
+int __wrap_unlink(const char *a) { if ((g_fslog || g_fscrash || g_fsfail) && fs_event("unlink", a)) return -1; return __real_unlink(a); }
 int __wrap_open(const char *path, int flags, ...) {
   mode_t mode = 0;
   if (flags & O_CREAT) { va_list ap; va_start(ap, flags); mode = (mode_t)va_arg(ap, int); va_end(ap); }
@@ -545,7 +554,7 @@ int __wrap_rmdir(const char *path) { if (g_fslog) fs_event("rmdir", path ? path 
 int __wrap_link(const char *a, const char *b) { if (g_fslog) fs_event("link", a ? a : "", b ? b : ""); return __real_link(a, b); }
 int __wrap_symlink(const char *a, const char *b) { if (g_fslog) fs_event("symlink", a ? a : "", b ? b : ""); return __real_symlink(a, b); }
 int __wrap_fprintf(FILE *f, const char *fmt, ...) {
-  if ((g_fslog || g_fscrash) && g_fpath.count(f)) fs_event("fprintf", g_fpath[f]);
+  if ((g_fslog || g_fscrash || g_fsfail) && g_fpath.count(f) && fs_event("fprintf", g_fpath[f])) return -1;
   va_list ap; va_start(ap, fmt); int r = vfprintf(f, fmt, ap); va_end(ap); return r;
 }
 
